@@ -1,7 +1,8 @@
 From Coq Require Import List NArith ZArith Permutation Sorting.Sorted.
 Require mathcomp.algebra.mxalgebra mathcomp.algebra.matrix mathcomp.algebra.rat.
 Require SK.lib.RankBridge SK.proof.C17_Rank.
-From SK Require Import lib.IRSortKeys lib.C17_Farkas model.C17_Model proof.C17_Proof model.C17_NodeModel proof.C17_Nodes.
+From SK Require Import lib.IRSortKeys lib.C17_Farkas model.C17_Model proof.C17_Proof model.C17_NodeModel proof.C17_Nodes
+  model.C17_IntLaws proof.C17_IntLawsProof.
 Import ListNotations.
 
 (** (1) build_S: one row per species, one column per reaction. *)
@@ -164,3 +165,46 @@ Theorem C17_S_node_ids_observed : forall (net : list rxn) (iso : list str) (sid 
   build_S_nodes G = build_S net iso.
 Proof. exact graph_of_refine. Qed.
 Print Assumptions C17_S_node_ids_observed.
+
+(** Integer scaling of kernel vectors (round 5; model coq/model/C17_IntLaws.v: Fraction.limit_denominator, _lcm,
+    _vector_to_minimal_integer, integer_conservation_laws — a float is the exact rational float.as_integer_ratio()).
+    limit_denominator: for every bound >= 1 and every fraction with a positive denominator the result has a positive
+    denominator within the bound, and a fraction whose denominator is within the bound is returned unchanged. *)
+Theorem C17_limit_denominator_bound :
+  forall (maxd : Z) (x : frac), (1 <= maxd)%Z -> (0 < snd x)%Z ->
+  (0 < snd (limit_denominator maxd x) <= maxd)%Z.
+Proof. exact limit_denominator_bound. Qed.
+Print Assumptions C17_limit_denominator_bound.
+
+Theorem C17_limit_denominator_exact :
+  forall (maxd : Z) (x : frac), (snd x <= maxd)%Z -> limit_denominator maxd x = x.
+Proof. exact limit_denominator_exact. Qed.
+Print Assumptions C17_limit_denominator_exact.
+
+(** _vector_to_minimal_integer outside its two float-rounding fall-backs (where the model answers None), for every tolerance
+    and every vector of floats: the answer has the length of the input; it is the zero vector exactly when every entry is
+    within the tolerance; otherwise its entries have gcd 1 and it is the vector of rational approximations
+    ([approx]: 0 within the tolerance, else limit_denominator(10^6)) scaled by ONE positive rational L / g with L <= 10^6 —
+    a minimal integer vector positively proportional to the approximations (signs and zero pattern preserved). *)
+Theorem C17_integer_law_minimal :
+  forall (tol : frac) (vec : list frac) (out : list Z),
+  Forall (fun x => (0 < snd x)%Z) vec ->
+  min_int_vec tol vec = Some out ->
+  length out = length vec /\
+  ((forallb (fun x => abs_le x tol) vec = true /\ out = map (fun _ => 0%Z) vec) \/
+   (forallb (fun x => abs_le x tol) vec = false /\
+    gcd_list out = 1%Z /\
+    exists L g, (0 < L <= MAXD)%Z /\ (0 < g)%Z /\
+      Forall2 (fun o f => (o * g * snd f = fst f * L)%Z) out (map (approx tol) vec))).
+Proof.
+  intros tol vec out Hpos H. split; [exact (min_int_vec_length tol vec out H)|exact (min_int_vec_spec tol vec out Hpos H)].
+Qed.
+Print Assumptions C17_integer_law_minimal.
+
+(** integer_conservation_laws: one answer per basis column, in column order, each computed from its own column only. *)
+Theorem C17_integer_laws_columns :
+  forall (tol : frac) (cols : list (list frac)),
+  length (int_laws tol cols) = length cols /\
+  forall k col, nth_error cols k = Some col -> nth_error (int_laws tol cols) k = Some (min_int_vec tol col).
+Proof. exact int_laws_columns. Qed.
+Print Assumptions C17_integer_laws_columns.
